@@ -85,6 +85,8 @@ func TestVerifC05HomeChild(t *testing.T) {
 		t.Fatal(err)
 	}
 
+	c05util.ObserveLocks(m, config, &globalContext.clients)
+
 	var ops atomic.Int64
 	var wg sync.WaitGroup
 	wg.Add(2)
@@ -127,6 +129,7 @@ func TestVerifC05HomeChild(t *testing.T) {
 		buf := make([]byte, 1<<20)
 		buf = buf[:runtime.Stack(buf, true)]
 		_ = os.WriteFile(filepath.Join(dir, "stacks.txt"), buf, 0o644)
+		res.Edges, res.LockOps = c05util.ObservedEdges()
 		res.Deadlock = true
 		res.Stuck = c05util.StuckKey(string(buf))
 		res.AdminOps = int(ops.Load())
@@ -136,6 +139,7 @@ func TestVerifC05HomeChild(t *testing.T) {
 	res.AdminOps = int(ops.Load())
 	res.Served = nIter
 	res.Done = true
+	res.Edges, res.LockOps = c05util.ObservedEdges()
 	write()
 	os.Exit(0)
 }
